@@ -130,12 +130,24 @@ pub fn write_inputs_as(c: &Collection, dir: &Path, p: &Presentation, single_file
         std::fs::write(&path, encode_file(&text, p))?;
         files.push(path);
     } else {
+        let mut late: Option<(usize, Vec<(String, String)>)> = None;
         for (i, s) in c.samples.iter().enumerate() {
-            let records: Vec<(String, String)> = s.contigs.iter().map(|r| (r.header.clone(), r.seq.clone())).collect();
+            let mut records: Vec<(String, String)> = s.contigs.iter().map(|r| (r.header.clone(), r.seq.clone())).collect();
+            if let Some((rs, from)) = c.revisit {
+                if c.pansn && rs as usize == i && (from as usize) < records.len() {
+                    late = Some((i, records.split_off(from as usize)));
+                }
+            }
             let text = render_records(&records, p, i as u64 + 1);
             // the file stem is the sample name unless the headers are PanSN (then the header wins)
             let stem = if c.pansn { format!("file{}", i) } else { s.name.clone() };
             let path = dir.join(format!("{}.{}", stem, ext));
+            std::fs::write(&path, encode_file(&text, p))?;
+            files.push(path);
+        }
+        if let Some((i, records)) = late {
+            let text = render_records(&records, p, 1000 + i as u64);
+            let path = dir.join(format!("file{}-more.{}", i, ext));
             std::fs::write(&path, encode_file(&text, p))?;
             files.push(path);
         }
